@@ -365,11 +365,18 @@ func mutate(t *rapid.T, s string, alphabet string) (string, int) {
 	b := []byte(s)
 	n := rapid.IntRange(1, 4).Draw(t, "edits")
 	for i := 0; i < n; i++ {
-		op := rapid.IntRange(0, 10).Draw(t, "op")
+		op := rapid.IntRange(0, 11).Draw(t, "op")
 		if len(b) == 0 {
 			op = 7
 		}
 		switch {
+		case op == 11: // something in front of or behind the string: white space of all kinds, a NUL, a legal character
+			pad := rapid.SampledFrom([]string{" ", "\t", "\n", "\r\n", "\u00a0", "\u2003", "\ufeff", "\x00", "\v", "\f", "  ", "=", "1", "q"}).Draw(t, "pad")
+			if rapid.Bool().Draw(t, "front") {
+				b = append([]byte(pad), b...)
+			} else {
+				b = append(b, pad...)
+			}
 		case op == 10: // a character outside ASCII (valid UTF-8) whose code point ends in the bits of a legal character
 			p := rapid.IntRange(0, len(b)-1).Draw(t, "pos")
 			ch := b[p]
@@ -458,6 +465,9 @@ func TestStringDecode(t *testing.T) {
 		}
 		if str := c.str(); utf8.ValidString(str) && strings.IndexFunc(str, func(r rune) bool { return r >= 0x80 }) >= 0 {
 			r.Class("characters_outside_ascii_valid_utf8")
+		}
+		if str := c.str(); str != strings.TrimSpace(str) {
+			r.Class("white_space_in_front_or_behind")
 		}
 		if !strings.HasPrefix(c.Kind, "pristine/segwit") && !strings.HasPrefix(c.Kind, "pristine/base58") || c.Kind == "pristine/base58_len" {
 			r.NonTrivial()
